@@ -541,15 +541,20 @@ def run(tier, seed):
         else:
             # a gate that changes the columns that are compared: T then H on wire 1 acts on every column
             bad["b"] = c["b"] + [tmpl.g("T", 1), tmpl.g("Hadamard", 1)]
-        negs.append((len(cases) + len(negs), kind, bad))
-    verdicts, T, r = run_tlc(cases + [b for _, _, b in negs], "trace")
+        negs.append((len(cases) + len(negs), kind, bad, ci))
+    verdicts, T, r = run_tlc(cases + [b for _, _, b, _ in negs], "trace")
     lap("tlc_trace")
     neg_rej = {}
-    for ti_, kind, bad in negs:
+    for ti_, kind, bad, src in negs:
         if verdicts[ti_] == "ok":
+            # a changed parameter can leave the documented operator unchanged (e.g. a Z rotation angle inside X . X): such a
+            # control corrupts nothing; TLC printed both operators, compare them
+            if kind == "wrong-parameter" and T[ti_].shape == T[src].shape and np.allclose(T[ti_], T[src], atol=1e-12):
+                neg_rej["neutral(not a corruption)"] = neg_rej.get("neutral(not a corruption)", 0) + 1
+                continue
             raise lib.MachineryError(f"negative control ({kind}, {bad['kind']}) accepted by TLC")
         neg_rej[kind] = neg_rej.get(kind, 0) + 1
-    if sum(neg_rej.values()) < 5:
+    if sum(v for k, v in neg_rej.items() if not k.startswith("neutral")) < 5:
         raise lib.MachineryError(f"too few negative controls: {neg_rej}")
 
     # ---- verdicts
@@ -633,7 +638,7 @@ def run(tier, seed):
            "rule": "distinct (template, option variant, source) combinations validated against the documented operator; source = "
                    "decomposition() / registered rule (identical emissions count once) / qp.matrix",
            "samples": samples, "exhaustive": False, "template_instances": len(inst), "exact_by_tlc": n_exact, "bridged_float": n_bridge,
-           "matrix_comparisons": n_mat, "per_template_decompositions": per_tmpl, "negative_controls_rejected": sum(neg_rej.values()),
+           "matrix_comparisons": n_mat, "per_template_decompositions": per_tmpl, "negative_controls_rejected": sum(v for k, v in neg_rej.items() if not k.startswith("neutral")),
            "negative_controls": neg_rej, "wall_split_s": timing, "ring_levels": r["levels"], **stats}
     return CheckResult(coverage=cov, violations=viol, assumptions=[
         "documented operators are the docstring definitions transcribed in Trace_Templates.tla; gate semantics = Gates.tla",
